@@ -37,6 +37,10 @@ type c20Plan struct {
 	// SnapAtExport: the exporter takes a regular snapshot right before the export, so
 	// that its log store already holds a snapshot record at exactly the exported index
 	SnapAtExport bool
+	// BusyExport: clients keep writing while the snapshot is exported and the state
+	// machine's PrepareSnapshot / SaveSnapshot take a few ms (concurrent and on-disk kinds
+	// keep applying meanwhile): the exported image must still be the state at its index
+	BusyExport bool
 }
 
 var memberCaseNames = []string{"all-old", "subset-12", "single-1", "old1-plus-new", "entirely-new", "single-2",
@@ -182,6 +186,7 @@ func TestVF_C20_Import(t *testing.T) {
 			SnapEntries: []uint64{0, 0, 4, 9}[vfhelp.Pick(t, "snap", 2)],
 			Exporter:    vfhelp.PickN(t, "exporter", 2),
 			SnapAtExport: vfhelp.Pick(t, "snapatexport", 1) == 1,
+			BusyExport:   vfhelp.Pick(t, "busyexport", 1) == 1,
 			MemberCase:  vfhelp.PickN(t, "members", len(memberCaseNames)),
 			Corrupt:     []int{0, 0, 0, 1, 2, 3, 4, 0}[vfhelp.Pick(t, "corrupt", 3)],
 			CorruptPos:  vfhelp.Pick(t, "cpos", 12),
@@ -301,9 +306,37 @@ func runC20(t *rapid.T, st *vfhelp.Stats, p c20Plan) ([]string, bool, interface{
 		}
 		scancel()
 	}
+	busyStop, busyDone := make(chan struct{}), make(chan struct{})
+	if p.BusyExport {
+		labels = append(labels, "writes-during-export")
+		rec.mu.Lock()
+		rec.SlowSnapshot = 3 * time.Millisecond
+		rec.mu.Unlock()
+		go func() {
+			defer close(busyDone)
+			for i := 0; ; i++ {
+				select {
+				case <-busyStop:
+					return
+				default:
+				}
+				ctx, cancel := context.WithTimeout(context.Background(), 500*time.Millisecond)
+				_, _ = exp.NH.SyncPropose(ctx, exp.NH.GetNoOPSession(shardID), []byte(fmt.Sprintf("P|k%d|e%d", i%4, i)))
+				cancel()
+			}
+		}()
+		time.Sleep(2 * time.Millisecond)
+	} else {
+		close(busyDone)
+	}
 	ctx, cancel := context.WithTimeout(context.Background(), 10*time.Second)
 	index, err := exp.NH.SyncRequestSnapshot(ctx, shardID, dragonboat.SnapshotOption{Exported: true, ExportPath: "/export"})
 	cancel()
+	close(busyStop)
+	<-busyDone
+	rec.mu.Lock()
+	rec.SlowSnapshot = 0
+	rec.mu.Unlock()
 	if err != nil {
 		return inconclusive("export")
 	}
@@ -321,6 +354,18 @@ func runC20(t *rapid.T, st *vfhelp.Stats, p c20Plan) ([]string, bool, interface{
 	if !ok {
 		vfhelp.Fail(t, "harness-no-image", "no image recorded for exported index %d", index)
 	}
+	// the exported image is the state at the exported index: no user entry lies between
+	// the last update folded into the image and the index the snapshot is stamped with
+	rec.mu.Lock()
+	for _, st := range rec.Streams {
+		for _, d := range st {
+			if d.Index > best && d.Index <= index && strings.HasPrefix(d.Cmd, "P|") {
+				rec.mu.Unlock()
+				vfhelp.Fail(t, "exported-snapshot-content-not-at-snapshot-index", "the exported snapshot is stamped with index %d, the image saved for it has applied index %d, but entry %d (%q) is a user entry", index, best, d.Index, d.Cmd)
+			}
+		}
+	}
+	rec.mu.Unlock()
 	for i := 0; i < p.Writes2; i++ {
 		if err := propose(c.Hosts[i%2], fmt.Sprintf("P|k%d|b%d", i%4, i)); err != nil {
 			return inconclusive("write2")
